@@ -219,6 +219,23 @@ func (w *Worktree) Checkout(opts *CheckoutOptions) error {
 		return err
 	}
 
+	// A non-forced checkout is refused when the worktree has unstaged
+	// changes. Find that out before the branch is created and before HEAD
+	// moves, so that a refused checkout leaves the repository untouched.
+	if !opts.Force && !opts.Keep {
+		cfg, err := w.r.Config()
+		if err != nil {
+			return err
+		}
+		unstaged, err := w.containsUnstagedChanges(cfg)
+		if err != nil {
+			return err
+		}
+		if unstaged {
+			return ErrUnstagedChanges
+		}
+	}
+
 	if opts.Create {
 		if err := w.createBranch(opts); err != nil {
 			return err
